@@ -311,7 +311,12 @@ class Impl:
             md = os.path.join(d, "mods") if case.get("fb") == 2 else None
             return TemplateLookup(directories=[d], module_directory=md), d
         lk = TemplateLookup()
-        for i, s in enumerate(srcs):
+        # put_string compiles at once; templates beyond the end of the chain (after an inherit evaluating to None)
+        # are never looked up by a render, so they are not put (a file-backed lookup holds them all, uncompiled)
+        eff = 1
+        while eff <= len(srcs) and case["levels"][eff - 1]["inh"] in ("S", "D"):
+            eff += 1
+        for i, s in enumerate(srcs[:eff]):
             lk.put_string(uri_of(i, False), s)
         return lk, None
 
@@ -1437,3 +1442,6 @@ def replay(ctx, data):
         return False
     finally:
         impl.close()
+
+
+DRIVER_OPS = ["inh"]   # per-area driver executable(s) this check talks to (built before any worker is forked)
